@@ -180,6 +180,12 @@ def judge(w, case):
                 os.symlink(w.p("targets", "d").encode(), path)
             else:
                 os.symlink(w.p("targets", "nowhere").encode(), path)
+    elif kind == "platform-env-long":
+        n = case["length"]
+        body = (b"0123456789abcdef" * (n // 16 + 1))[:n]
+        open(w.p("platform", "env", "LONG"), "wb").write(body)
+        open(w.p("platform", "env", "AFTER"), "wb").write(b"x")
+        expect_env = {hexs(b"LONG"): hexs(body), hexs(b"AFTER"): hexs(b"x")}
     elif kind == "missing-dir":
         if case["what"] == "env":
             shutil.rmtree(w.p("platform", "env"))
@@ -297,9 +303,11 @@ def judge(w, case):
     c = dump["context"]
     if c["app_dir"] != w.p("app") or c["buildpack_dir"] != w.p("bp") or (phase == "build" and c["layers_dir"] != w.p("layers")):
         bad("wrong-directories", f"context directories {c['app_dir']}, {c['buildpack_dir']}, {c.get('layers_dir')}")
-    if kind in ("platform-env", "missing-dir"):
+    if kind in ("platform-env", "missing-dir", "platform-env-long"):
         got = {k: val for k, val in c["platform_env"]}
-        if got != expect_env:
+        if got != expect_env and kind == "platform-env-long":
+            bad("platform-env-value-altered", f"a value of {case['length']} bytes reached the context with {len(got.get(hexs(b'LONG'), '')) // 2} bytes (variables {sorted(bytes.fromhex(k).decode() for k in got)})")
+        elif got != expect_env:
             extra = set(got) - set(expect_env)
             missing = set(expect_env) - set(got)
             sig = "platform-env-extra-variable" if extra else "platform-env-missing-variable" if missing else "platform-env-value-altered"
@@ -387,6 +395,10 @@ def cases(thorough):
     for what in ("env", "platform"):
         for phase in ("build", "detect"):
             out.append({"kind": "missing-dir", "what": what, "phase": phase})
+    # value lengths around powers of two (buffer sizes, argument-length limits): 2^k-1, 2^k, 2^k+1
+    for k in (12, 16, 17, 20):
+        for d in (-1, 0, 1):
+            out.append({"kind": "platform-env-long", "length": (1 << k) + d, "phase": "build" if d else "detect"})
     # C. target variables: present/absent x values
     opts = [None, 0, 1, 2, 3]
     for combo in itertools.product(opts, repeat=5):
@@ -454,7 +466,7 @@ def run(ctx):
     res.cov("distinct_nontrivial", nontrivial)
     res.cov("distinct_outcomes", sorted(outcomes))
     res.cov("determinism_replays", 6)
-    res.cov("rule", "platform env: all sets of <=2 (thorough: <=3 over a reduced kind set) entries with distinct names over 6 names (dots, space, '=', non-ASCII, non-UTF-8) x 9 kinds (4 file contents, directory, symlink to file/dir, dangling, non-UTF-8 content); env/platform dir missing; target: every present/absent x value combination of the five CNB_TARGET_* variables (quick: <=2 non-default) over values {linux, '', 'a b', non-UTF-8}; TOML: every value kind (18 strings, ints incl. extremes, floats incl. inf/nan/-0, bools, 4 datetime kinds, arrays/tables depth 2) in plan entry metadata, store and descriptor metadata; all through the real detect/build runtime; directory spellings: layers / platform / buildpack directory each given plain, through a symlink, relative to the working directory, or with redundant segments (4^3 build + 4^2 detect cases), the context must name them as supplied and still find env, store and descriptor; in-process sequences: every sequence of 2..3 (thorough: ..4) programmatic libcnb_runtime_detect/libcnb_runtime_build calls in ONE process over 12 symbols (2 worlds x 3 content variants of descriptor, platform env, plan, store and target variables, one of them with the descriptor removed, x 2 phases), each step compared with the same invocation run alone in a fresh process. non-trivial = case with at least one non-default input")
+    res.cov("rule", "platform env: all sets of <=2 (thorough: <=3 over a reduced kind set) entries with distinct names over 6 names (dots, space, '=', non-ASCII, non-UTF-8) x 9 kinds (4 file contents, directory, symlink to file/dir, dangling, non-UTF-8 content); env/platform dir missing; values of 2^k-1, 2^k, 2^k+1 bytes for k in {12,16,17,20}; target: every present/absent x value combination of the five CNB_TARGET_* variables (quick: <=2 non-default) over values {linux, '', 'a b', non-UTF-8}; TOML: every value kind (18 strings, ints incl. extremes, floats incl. inf/nan/-0, bools, 4 datetime kinds, arrays/tables depth 2) in plan entry metadata, store and descriptor metadata; all through the real detect/build runtime; directory spellings: layers / platform / buildpack directory each given plain, through a symlink, relative to the working directory, or with redundant segments (4^3 build + 4^2 detect cases), the context must name them as supplied and still find env, store and descriptor; in-process sequences: every sequence of 2..3 (thorough: ..4) programmatic libcnb_runtime_detect/libcnb_runtime_build calls in ONE process over 12 symbols (2 worlds x 3 content variants of descriptor, platform env, plan, store and target variables, one of them with the descriptor removed, x 2 phases), each step compared with the same invocation run alone in a fresh process. non-trivial = case with at least one non-default input")
     res.cov("exhaustive", True)
     res.sample(cs[3])
     res.sample(cs[len(cs) // 2])
